@@ -114,6 +114,15 @@ def build_traces(path, tier, seed):
     for tid in range(1, nrec + 1):
         n = gen.length(rng, 2, nmax)
         x = rand_series(rng, n)
+        zero_down = bool(rng.integers(6) == 0 and n >= 3 and tid != nrec)
+        if zero_down:
+            # a series that starts at exactly zero and moves DOWN first (plateau-free start)
+            x = np.asarray(x, dtype=float) - float(x[0])
+            if x[1] >= 0:
+                x = -x
+            if x[1] == 0:
+                x[1] = -abs(float(np.max(np.abs(x)))) * 0.5 - 1.0
+            x = gen.not_constant(x)
         if tid == nrec:
             # one very long series with more than 10 000 turning points
             n = 16000 if tier == "quick" else 31000        # (two thirds of the samples of white noise are turning points)
@@ -127,6 +136,15 @@ def build_traces(path, tier, seed):
             arg = np.asarray(xi, dtype=dt_)
             arg = gen.not_constant(arg)
             x = np.asarray(arg, dtype=float)
+        if rng.integers(3) == 0:
+            # other public functions of the library on the SAME container just before (their results overwritten by the caller)
+            gen.array_noise(rng, arg)
+        if zero_down:
+            # ... in particular the peaks-only series of the same record (they normalise the sign of the first movement)
+            from eqsig.fns import peaks_and_crossings as pc3_
+            pc3_.determine_peaks_only_delta_series(arg)
+            if rng.integers(2):
+                pc3_.determine_pseudo_cyclic_peak_only_series(arg)
         allp, mx, mn, co, cp = impl(arg)
         if rng.integers(5) == 0 and n >= 4 and isinstance(arg, (np.ndarray, list)):
             # history: the caller's container was analysed, then EDITED IN PLACE, and the selections are asked for first
